@@ -189,6 +189,23 @@ def run_job(job):
                 V("fake-record masking key is not a recorded random draw", "world %d" % wi)
             else:
                 vals["fake.masking_key"] = fmk
+            # a server key pair made the documented way for ServerSetup::new_with_key: KeGroup::random_sk on the caller's RNG
+            kseed = proto.H(seed, "keygen")
+            k1 = s.cmd("g_random_sk", rng=s.rng("kg", kseed))
+            k2 = s2.cmd("g_random_sk", rng=s2.rng("kg", kseed))
+            evals += 2
+            if k1.failed or k2.failed:
+                V("control: random_sk failed", str(dict(k1))[:200])
+            else:
+                if k1.sk != k2.sk:
+                    V("same tape, another process: outputs differ (hidden entropy)", "KeGroup::random_sk: %s vs %s" % (k1.sk, k2.sk))
+                ks = s.cmd("setup_new_with_key", rng="kg", sk=bx(k1.sk), out="W.K")
+                evals += 1
+                if ks.ok:
+                    vals["keygen.random_sk"] = bx(k1.sk)
+                    vals["keygen.server_pk"] = bx(ks.pk)
+                else:
+                    V("control: new_with_key refused a key made by random_sk", str(ks.get("err")))
             # within a run no two values of equal length coincide
             seen = {}
             for k, v in vals.items():
